@@ -18,7 +18,7 @@ META = {
     "chain/ring/star/grid/complete with 10, 20, 30 vertices. For init=generic the judged run is the SECOND run on the same Graph object (first run: one more vertex fixed, other initial guess; then released and re-seeded). Oracle: closed-form reduced WLS (Cholesky-whitened lstsq) for poses and chi2. "
     "non-trivial = at least one free vertex and the optimum differs from the initial guess by more than 1e-6",
     "assumptions": ["numpy cholesky/lstsq trusted on <= 90 unknowns", "exhaustive up to 4 (quick) / 5 (thorough) vertices; structured (not exhaustive) families above", "tolerance 1e-7 x (1 + scale)"],
-    "required_classes": ["fix_first_pose_true", "second_run_on_same_graph", "tree", "loop", "multi_edge", "landmark_offset", "reversed_orientation", "several_fixed", "far_init", "ill_conditioned", "noise_free", "noisy", "structured", "d2", "d3"],
+    "required_classes": ["shared_guess_array", "fix_first_pose_true", "second_run_on_same_graph", "tree", "loop", "multi_edge", "landmark_offset", "reversed_orientation", "several_fixed", "far_init", "ill_conditioned", "noise_free", "noisy", "structured", "d2", "d3"],
     "bounds": {"quick": "n<=3 all; n=4 with <=4 edges; fixed subsets of size <=2; init {generic, far}; Omega {spd, ill}; noise {0 (n<=3), generic}", "thorough": "n<=4 all (<=5 edges); n=5 <=5 edges with single fixed vertex; all factors"},
 }
 
@@ -130,13 +130,18 @@ def make_spec(n, d, es, flavour, fixed, init, om, noise, seed):
             typ, rev = ("lm", k % 2 == 1) if k % 3 == 0 else ("odo", k % 2 == 0)
         i, j = (b, a) if rev else (a, b)
         nz = [0.0] * d if noise == "zero" else [0.15 * math.sin(1.7 * k + 0.9 * c + 0.3) for c in range(d)]
+        # a repeated vertex pair in the "fwd" flavours is an EXACT duplicate (two independent, bitwise-equal measurements)
+        kk = k
+        if flavour in ("odo_fwd", "lm_fwd") and (a, b) in es[:k]:
+            kk = es.index((a, b))
+            nz = [0.0] * d if noise == "zero" else [0.15 * math.sin(1.7 * kk + 0.9 * c + 0.3) for c in range(d)]
         if typ == "odo":
             z = [truth[j][c] - truth[i][c] + nz[c] for c in range(d)]
-            edges.append({"type": "odo", "ids": [i, j], "z": z, "om": _omega(d, om, k, seed)})
+            edges.append({"type": "odo", "ids": [i, j], "z": z, "om": _omega(d, om, kk, seed)})
         else:
-            off = [0.2 + 0.1 * (k % 3), -0.4, 0.3][:d]
+            off = [0.2 + 0.1 * (kk % 3), -0.4, 0.3][:d]
             z = [truth[j][c] - truth[i][c] - off[c] + nz[c] for c in range(d)]
-            edges.append({"type": "lm", "ids": [i, j], "z": z, "off": off, "om": _omega(d, om, k, seed)})
+            edges.append({"type": "lm", "ids": [i, j], "z": z, "off": off, "om": _omega(d, om, kk, seed)})
     return {"vertices": verts, "edges": edges}
 
 
@@ -289,6 +294,13 @@ def _eval_inner(case):
             verts[free[-1]].fixed = False
         for i in free:
             verts[i].pose = type(verts[i].pose)(keep[i])
+    if case["init"] in ("mixed", "far") and sum(eff) == 1 and sum(1 for f in eff if not f) >= 2:
+        # every free vertex gets its initial guess from the SAME ndarray (R^n poses are views of what they are built from)
+        classes.append("shared_guess_array")
+        guess = np.array([0.25, -0.75, 1.5][:d])
+        for i, v in enumerate(verts):
+            if not eff[i]:
+                v.pose = type(v.pose)(guess)
     before = GB.snapshot(verts)
     res = GB.optimize(g, fix_first_pose=ffp)
     after = GB.snapshot(verts)
